@@ -218,6 +218,12 @@ func (st *State) toJSON(c *frame, v Value, t types.Type, depth int) interface{} 
 		}
 		return x.Val
 	case string:
+		if t != nil && isNamed(t, "encoding/json", "Number") {
+			if x == "" {
+				return json.Number("0")
+			}
+			return json.Number(x)
+		}
 		return x
 	case *SymStr:
 		return st.jsonPlaceholder(jsonSym{str: x})
@@ -370,6 +376,9 @@ func (st *State) genericJSON(hv interface{}, useNumber bool) Value {
 	case bool:
 		return Iface{T: types.Typ[types.Bool], V: BoolC(x)}
 	case json.Number:
+		if useNumber || st.jsonNumMode {
+			return Iface{T: st.eng.jsonNumberType(), V: x.String()}
+		}
 		f, _ := x.Float64()
 		return Iface{T: types.Typ[types.Float64], V: FPC64(f)}
 	case string:
@@ -703,7 +712,28 @@ func init() {
 		st.jsonDecoders[p] = &data
 		return p
 	})
-	in("(*encoding/json.Decoder).UseNumber", func(st *State, c *frame, fn *ssa.Function, a []Value) Value { return nil })
+	in("(*encoding/json.Decoder).UseNumber", func(st *State, c *frame, fn *ssa.Function, a []Value) Value {
+		if st.jsonUseNumber == nil {
+			st.jsonUseNumber = map[*Value]bool{}
+		}
+		st.jsonUseNumber[a[0].(*Value)] = true
+		return nil
+	})
+	in("encoding/json.Number.String", func(st *State, c *frame, fn *ssa.Function, a []Value) Value { return a[0] })
+	in("encoding/json.Number.Int64", func(st *State, c *frame, fn *ssa.Function, a []Value) Value {
+		v, err := json.Number(st.concStrV(a[0])).Int64()
+		if err != nil {
+			return Tuple{BVC(64, 0), st.mkError(err.Error(), Iface{})}
+		}
+		return Tuple{BVC(64, uint64(v)), Iface{}}
+	})
+	in("encoding/json.Number.Float64", func(st *State, c *frame, fn *ssa.Function, a []Value) Value {
+		v, err := json.Number(st.concStrV(a[0])).Float64()
+		if err != nil {
+			return Tuple{FPC64(0), st.mkError(err.Error(), Iface{})}
+		}
+		return Tuple{FPC64(v), Iface{}}
+	})
 	in("(*encoding/json.Decoder).Decode", func(st *State, c *frame, fn *ssa.Function, a []Value) Value {
 		data := st.jsonDecoders[a[0].(*Value)]
 		if data == nil {
@@ -720,6 +750,10 @@ func init() {
 		}
 		rest, _ := readAll(d.Buffered())
 		*data = rest
+		if st.jsonUseNumber[a[0].(*Value)] {
+			st.jsonNumMode = true
+			defer func() { st.jsonNumMode = false }()
+		}
 		return st.jsonUnmarshal(c, raw, a[1])
 	})
 }
@@ -734,4 +768,11 @@ func readAll(r interface{ Read([]byte) (int, error) }) ([]byte, error) {
 			return out, nil
 		}
 	}
+}
+
+func (eng *Engine) jsonNumberType() types.Type {
+	if eng.jsonNumT == nil {
+		eng.jsonNumT = eng.prog.ImportedPackage("encoding/json").Type("Number").Type()
+	}
+	return eng.jsonNumT
 }
